@@ -104,3 +104,158 @@ mod state;
 mod storage;
 mod telemetry;
 mod writer;
+
+/// Verification-only drivers (only compiled with `--cfg metrics_verif`): public wrappers around the crate-private
+/// payload writer and flush path, so a harness can drive them synchronously.
+#[cfg(metrics_verif)]
+#[allow(missing_docs)]
+#[allow(clippy::too_many_arguments, clippy::missing_panics_doc, clippy::new_without_default)]
+pub mod verif {
+    use std::sync::Arc;
+
+    use metrics::{Key, Label};
+
+    use crate::{
+        state::{FlushState, State, StateConfiguration},
+        telemetry::TelemetryUpdate,
+        writer::PayloadWriter,
+        AggregationMode, DogStatsDRecorder,
+    };
+
+    /// Wrapper around the crate-private `PayloadWriter`.
+    pub struct Writer(PayloadWriter);
+
+    impl Writer {
+        pub fn new(max_payload_len: usize, with_length_prefix: bool) -> Self {
+            Self(PayloadWriter::new(max_payload_len, with_length_prefix))
+        }
+
+        /// Returns (payloads written, points dropped).
+        pub fn write_counter(
+            &mut self,
+            key: &Key,
+            value: u64,
+            timestamp: Option<u64>,
+            prefix: Option<&str>,
+            global_labels: &[Label],
+        ) -> (u64, u64) {
+            let r = self.0.write_counter(key, value, timestamp, prefix, global_labels);
+            (r.payloads_written(), r.points_dropped())
+        }
+
+        pub fn write_gauge(
+            &mut self,
+            key: &Key,
+            value: f64,
+            timestamp: Option<u64>,
+            prefix: Option<&str>,
+            global_labels: &[Label],
+        ) -> (u64, u64) {
+            let r = self.0.write_gauge(key, value, timestamp, prefix, global_labels);
+            (r.payloads_written(), r.points_dropped())
+        }
+
+        pub fn write_histogram(
+            &mut self,
+            key: &Key,
+            values: &[f64],
+            sample_rate: Option<f64>,
+            prefix: Option<&str>,
+            global_labels: &[Label],
+        ) -> (u64, u64) {
+            let r = self.0.write_histogram(
+                key,
+                values.iter().copied(),
+                sample_rate,
+                prefix,
+                global_labels,
+            );
+            (r.payloads_written(), r.points_dropped())
+        }
+
+        pub fn write_distribution(
+            &mut self,
+            key: &Key,
+            values: &[f64],
+            sample_rate: Option<f64>,
+            prefix: Option<&str>,
+            global_labels: &[Label],
+        ) -> (u64, u64) {
+            let r = self.0.write_distribution(
+                key,
+                values.iter().copied(),
+                sample_rate,
+                prefix,
+                global_labels,
+            );
+            (r.payloads_written(), r.points_dropped())
+        }
+
+        /// Drains all payloads written so far, exactly as the forwarder does on each flush.
+        pub fn drain(&mut self) -> Vec<Vec<u8>> {
+            let mut out = Vec::new();
+            let mut payloads = self.0.payloads();
+            while let Some(p) = payloads.next_payload() {
+                out.push(p.to_vec());
+            }
+            out
+        }
+    }
+
+    /// Synchronous flush driver: the forwarder's loop body without the socket and the sleeps.
+    pub struct Driver {
+        state: Arc<State>,
+        flush_state: FlushState,
+        writer: PayloadWriter,
+        telemetry: TelemetryUpdate,
+    }
+
+    impl Driver {
+        pub fn new(
+            aggressive: bool,
+            histogram_sampling: bool,
+            histogram_reservoir_size: usize,
+            histograms_as_distributions: bool,
+            global_labels: Vec<Label>,
+            global_prefix: Option<String>,
+            max_payload_len: usize,
+            with_length_prefix: bool,
+        ) -> Self {
+            let config = StateConfiguration {
+                agg_mode: if aggressive {
+                    AggregationMode::Aggressive
+                } else {
+                    AggregationMode::Conservative
+                },
+                telemetry: false,
+                histogram_sampling,
+                histogram_reservoir_size,
+                histograms_as_distributions,
+                global_labels,
+                global_prefix,
+            };
+            Self {
+                state: Arc::new(State::new(config)),
+                flush_state: FlushState::default(),
+                writer: PayloadWriter::new(max_payload_len, with_length_prefix),
+                telemetry: TelemetryUpdate::default(),
+            }
+        }
+
+        pub fn recorder(&self) -> DogStatsDRecorder {
+            DogStatsDRecorder::new(Arc::clone(&self.state))
+        }
+
+        /// One flush cycle; returns the payloads the forwarder would send, in order.
+        pub fn flush(&mut self) -> Vec<Vec<u8>> {
+            self.telemetry.clear();
+            self.state.flush(&mut self.flush_state, &mut self.writer, &mut self.telemetry);
+            let mut out = Vec::new();
+            let mut payloads = self.writer.payloads();
+            while let Some(p) = payloads.next_payload() {
+                out.push(p.to_vec());
+            }
+            out
+        }
+    }
+}
